@@ -95,6 +95,7 @@ def run(ctx):
     exclusive_rule(ctx, syn)
     compress_rule(ctx, syn)
     expand_rule(ctx, syn)
+    multiarms_rule(ctx, syn)
     from props.c02 import pred_rule
     pred_rule(ctx, syn, rid="C01.PRED")   # the forward list loses exactly the (set, data) entry whose index entry is removed with it
     guard_rule(ctx, syn)
@@ -1367,3 +1368,67 @@ def guard_rule(ctx, syn):
     visit(fn.body, [])
     if r.instances < len(drains):
         ctx.report(r, "no-push", "a queue drained by protect_text is never filled in its own body: the guard pairing cannot be established", fn.file, fn.line)
+
+
+# ---------------------------------------------------------------------- MULTIARMS
+def multiarms_rule(ctx, syn, rid="C01.MULTIARMS"):
+    """the multi-target block of StoreCallbacks<Annotation>::inserted walks the sub-selectors of a complex target and
+    queues one reverse-index entry per sub-selector.  Its match is evaluated (lib/formula.py) once per kind of
+    sub-selector with every index switched on: each kind must queue exactly the entries that point back from what it
+    references - an annotation selector the (target annotation -> annotation) pair *whether or not it carries a text
+    offset*, and with an offset also the (resource, text selection -> annotation) triple."""
+    from formula import Evaluator, Unknown, Panic, StructVal, EnumVal, some
+    r = ctx.rule(rid, "in the multi-target block of inserted() every kind of sub-selector queues exactly its own reverse-index entries (annotation selectors with and without offset, text, resource, dataset, key and data selectors)")
+    fns = [f for f in syn.fns if f.name == "inserted" and f.file == "src/annotationstore.rs" and f.body is not None and "Annotation" in (f.trait or "") and "AnnotationData" not in (f.trait or "")]
+    loop = None
+    fn = None
+    for f in fns:
+        for nd in walk(f.body):
+            if nd.get("k") == "for" and "target().iter(self" in unparse(nd["iter"]).replace(" ", "") and any(x.get("k") == "match" for x in walk(nd["body"])):
+                loop, fn = nd, f
+    if loop is None:
+        ctx.anchor_missing(r, "the loop over annotation.target().iter(self, false) in StoreCallbacks<Annotation>::inserted")
+        return
+    ctx.functions_analysed.add(fn.qual)
+    var = loop["pat"].get("name")
+    cfg_fields = set(re.findall(r"self\.config\.(\w+)", unparse(loop["body"])))
+    lists = sorted(set(m_["recv"]["s"] for m_ in walk(loop["body"]) if m_.get("k") == "mcall" and m_["method"] == "push" and strip(m_["recv"]).get("k") == "path" and len(strip(m_["recv"])["path"]) == 1) if False else set())
+    names = set()
+    for m_ in walk(loop["body"]):
+        if m_.get("k") == "mcall" and m_["method"] == "push":
+            rv_ = strip(m_["recv"])
+            if rv_.get("k") == "path" and len(rv_["path"]) == 1:
+                names.add(rv_["path"][0])
+    H = 99
+    mode = EnumVal("BeginEnd")
+    cases = [
+        ("AnnotationSelector+offset", EnumVal("AnnotationSelector", [7, some((1, 2, mode))]), {("annotation", (7, H)), ("text", (1, 2, H))}),
+        ("AnnotationSelector", EnumVal("AnnotationSelector", [7, None]), {("annotation", (7, H))}),
+        ("TextSelector", EnumVal("TextSelector", [1, 2, mode]), {("text", (1, 2, H))}),
+        ("ResourceSelector", EnumVal("ResourceSelector", [1]), {("resource", (1, H))}),
+        ("DataSetSelector", EnumVal("DataSetSelector", [3]), {("dataset", (3, H))}),
+        ("DataKeySelector", EnumVal("DataKeySelector", [3, 4]), {("key", (3, 4, H))}),
+        ("AnnotationDataSelector", EnumVal("AnnotationDataSelector", [3, 5]), {("data", (3, 5, H))}),
+    ]
+    kind_of_list = lambda nm: "annotation" if "annotations" in nm else "text" if "text" in nm else "resource" if "resource" in nm else "dataset" if "dataset" in nm else "key" if "key" in nm else "data" if "data" in nm else nm
+    n = 0
+    for label, sel, want in cases:
+        env = {var: sel, "handle": H, "self": StructVal("Store", {"config": StructVal("Config", dict((c_, True) for c_ in cfg_fields))})}
+        for nm in names:
+            env[nm] = []
+        try:
+            Evaluator(hooks={}).block(loop["body"], env, {})
+        except (Unknown, Panic) as ex:
+            ctx.report(r, "unevaluated:" + label, "the multi-target match of inserted() could not be evaluated for a %s sub-selector (%s): which index entries it queues is not established" % (label, ex), fn.file, loop.get("l"))
+            continue
+        n += 1
+        got = set()
+        for nm in names:
+            for item in env[nm]:
+                got.add((kind_of_list(nm), tuple(item) if isinstance(item, (tuple, list)) else item))
+        r.hit(label, sample={"sub_selector": label, "queues": sorted("%s%s" % (k_, v_) for k_, v_ in got)})
+        if got != want:
+            miss = sorted("%s%s" % x for x in want - got)
+            extra = sorted("%s%s" % x for x in got - want)
+            ctx.report(r, label, "for a %s sub-selector of a complex target the multi-target block of inserted() queues %s%s: the annotation is then not found from what that sub-selector references (and a cascade that follows the index leaves it behind with a dangling target)" % (label, ("nothing for " + ", ".join(miss)) if miss else "", ((" and the unrelated " + ", ".join(extra)) if extra else "")), fn.file, loop.get("l"))
+    ctx.floor(r, n, 7, "sub-selector kinds evaluated")
